@@ -9,7 +9,15 @@
 (*                Eval(Stmt[s], Content(storage[f])) - nothing else is in  *)
 (*                the formula: not the other feeds, not earlier reads, not *)
 (*                the process the read happens in                          *)
-(*   Mutate(f)    f's storage changes to its next content                  *)
+(*   Mutate(f)    f's storage changes to its next content (an unavailable  *)
+(*                storage is created anew by that)                         *)
+(*   Break(f)     f's storage becomes unavailable (its table is dropped /  *)
+(*                its file removed).  The property speaks about the        *)
+(*                contents of a storage: a read while there is none is not *)
+(*                constrained (it may fail) - and it must not constrain    *)
+(*                any LATER read either: whatever happened before, a read  *)
+(*                of an available storage returns the denotation over the  *)
+(*                content of that moment (faults are part of "histories")  *)
 (*   Restart      a new process (no effect on what a read has to return)   *)
 (* Histories (the sequence of actions) and the result every read has to    *)
 (* return are kept in hist / outs; TLC exports each history of the bound   *)
@@ -18,10 +26,14 @@
 EXTENDS RelAlg
 
 CONSTANTS Feeds,      \* sequence of feed names
-          Depth       \* length of the histories
+          Depth,      \* length of the histories
+          Faulty,     \* the feeds whose storage can become unavailable (action Break)
+          Unavail0,   \* the feeds whose storage does not exist yet when the history starts
+          ReadStmts   \* the numbers of the statements the histories read (subset of DOMAIN Stmts)
 VARIABLES storage,    \* feed name |-> index of its current content
+          avail,      \* feed name |-> the storage exists at the moment
           hist,       \* actions so far: [a, f, s]
-          outs        \* per Read action so far: [at (position in hist), f, s, rows]
+          outs        \* per Read action so far: [at (position in hist), f, s, avail, rows]; rows only binds when avail
 
 \* one table B(i, s, k) per storage; three contents (same table name everywhere)
 TB == Src("table", "B", "", <<<<"i", "int">>, <<"s", "str">>, <<"k", "int">>>>, NilS, NilS, NilF, <<>>, NilF, <<>>, NilF, <<>>, <<>>)
@@ -38,6 +50,9 @@ Stmts == << QueryOf(TB, <<Col(TB, "i"), Col(TB, "k")>>, NilF, <<>>, NilF, <<>>, 
 FeedsAB == <<"f1", "f2">>
 FeedsM == <<"m1", "m2">>
 FeedsMixed == <<"f1", "m1">>
+FeedsFM == <<"f1", "m1", "m2">>
+NoFeeds == {}
+AllStmts == DOMAIN Stmts
 NoLits == [k \in {"0", "15", "35"} |-> CASE k = "15" -> 15 [] k = "35" -> 35 [] OTHER -> 0]
 FeedSet == {Feeds[i] : i \in DOMAIN Feeds}
 \* feed number k starts on content k: equally named tables, different rows
@@ -46,23 +61,31 @@ NextContent(c) == (c % Len(Contents)) + 1
 
 Denotes(f, s) == Eval(Stmts[s], Contents[storage[f]])
 
-Init == storage = InitialStorage /\ hist = <<>> /\ outs = <<>>
+InitialAvail == [f \in FeedSet |-> f \notin Unavail0]
+Init == storage = InitialStorage /\ avail = InitialAvail /\ hist = <<>> /\ outs = <<>>
 Read(f, s) ==
     /\ hist' = Append(hist, [a |-> "read", f |-> f, s |-> s])
-    /\ outs' = Append(outs, [at |-> Len(hist) + 1, f |-> f, s |-> s, rows |-> Denotes(f, s)])
-    /\ UNCHANGED storage
+    /\ outs' = Append(outs, [at |-> Len(hist) + 1, f |-> f, s |-> s, avail |-> avail[f],
+                             rows |-> IF avail[f] THEN Denotes(f, s) ELSE <<>>])
+    /\ UNCHANGED <<storage, avail>>
 Mutate(f) ==
     /\ storage' = [storage EXCEPT ![f] = NextContent(@)]
+    /\ avail' = [avail EXCEPT ![f] = TRUE]
     /\ hist' = Append(hist, [a |-> "mutate", f |-> f, s |-> 0])
     /\ UNCHANGED outs
+Break(f) ==
+    /\ avail' = [avail EXCEPT ![f] = FALSE]
+    /\ hist' = Append(hist, [a |-> "break", f |-> f, s |-> 0])
+    /\ UNCHANGED <<storage, outs>>
 Restart ==
     /\ hist' = Append(hist, [a |-> "restart", f |-> "", s |-> 0])
-    /\ UNCHANGED <<storage, outs>>
+    /\ UNCHANGED <<storage, avail, outs>>
 Next == /\ Len(hist) < Depth
-        /\ \/ \E f \in FeedSet, s \in DOMAIN Stmts : Read(f, s)
+        /\ \/ \E f \in FeedSet, s \in ReadStmts : Read(f, s)
            \/ \E f \in FeedSet : Mutate(f)
+           \/ \E f \in Faulty : Break(f)
            \/ Restart
-vars == <<storage, hist, outs>>
+vars == <<storage, avail, hist, outs>>
 Spec == Init /\ [][Next]_vars
 
 \* the property, as an invariant of the requirement itself: every recorded result is the denotation over the
@@ -71,6 +94,13 @@ RECURSIVE StorageAt(_, _)
 StorageAt(f, n) ==         \* content index of feed f after the first n actions
     IF n = 0 THEN InitialStorage[f]
     ELSE IF hist[n].a = "mutate" /\ hist[n].f = f THEN NextContent(StorageAt(f, n - 1)) ELSE StorageAt(f, n - 1)
+RECURSIVE AvailAt(_, _)
+AvailAt(f, n) ==           \* does the storage of feed f exist after the first n actions
+    IF n = 0 THEN InitialAvail[f]
+    ELSE IF hist[n].f = f /\ hist[n].a = "mutate" THEN TRUE
+    ELSE IF hist[n].f = f /\ hist[n].a = "break" THEN FALSE ELSE AvailAt(f, n - 1)
 OwnStorageNow ==
-    \A k \in DOMAIN outs : outs[k].rows = Eval(Stmts[outs[k].s], Contents[StorageAt(outs[k].f, outs[k].at)])
+    \A k \in DOMAIN outs :
+        /\ outs[k].avail = AvailAt(outs[k].f, outs[k].at)
+        /\ outs[k].avail => outs[k].rows = Eval(Stmts[outs[k].s], Contents[StorageAt(outs[k].f, outs[k].at)])
 =============================================================================
